@@ -151,6 +151,18 @@ theorem oto_ctor_values_kept (ps : List (α × α)) (k v : α)
     (h : lookup k (putAll ([] : Dict α α) ps) = some v) : ∃ k', lookup k' (OTO.ofPairs ps).fwd = some v :=
   OTO.ofPairs_values_kept ps k v h
 
+/-- the correspondence's order-agnostic constructor (the driver is told which items the implementation's instance
+    holds; used for `OneToOne(other, **kw)` with colliding values, where the surviving key depends on the iteration
+    order of `other`): whatever it is told, the instance satisfies the invariant, holds only items of `dict(pairs)` and
+    loses no value of it; an outcome that is not admissible falls back to `ofPairs` -/
+theorem oto_ctor_any_spec (ps hint : List (α × α)) :
+    (OTO.ofPairsAs ps hint).WF ∧
+    (∀ k v, lookup k (OTO.ofPairsAs ps hint).fwd = some v → lookup k (putAll ([] : Dict α α) ps) = some v) ∧
+    (∀ k v, lookup k (putAll ([] : Dict α α) ps) = some v → ∃ k', lookup k' (OTO.ofPairsAs ps hint).fwd = some v) ∧
+    (OTO.admissible ps hint = false → OTO.ofPairsAs ps hint = OTO.ofPairs ps) := by
+  refine ⟨OTO.WF.ofPairsAs ps hint, (OTO.ofPairsAs_spec ps hint).1, (OTO.ofPairsAs_spec ps hint).2, fun h => ?_⟩
+  simp [OTO.ofPairsAs, h]
+
 /-- `OneToOne.unique(pairs)` raises ValueError exactly when some value sits under two keys of `dict(pairs)`;
     otherwise it is the plain constructor and holds `dict(pairs)` itself -/
 theorem oto_unique_spec (ps : List (α × α)) :
@@ -161,6 +173,10 @@ theorem oto_unique_spec (ps : List (α × α)) :
 /-! non-vacuity: a history with overwrite + eviction through both sides, update from the own inverse, copy -/
 example : OTO.uniqueOfPairs [(1, 2), (3, 4), (5, 2)] = (none : Option (OTO Nat)) ∧
     (OTO.uniqueOfPairs [(1, 2), (3, 4), (1, 5)] : Option (OTO Nat)) = some ⟨[(1, 5), (3, 4)], [(5, 1), (4, 3)]⟩ := by decide
+/-- `oto_ctor_any_spec`: value 2 sits under keys 1 and 5; an implementation that kept key 1 is accepted, one that
+    reports a pair `dict(pairs)` does not have is not (fallback: key 5 keeps it) -/
+example : (OTO.ofPairsAs [(1, 2), (3, 4), (5, 2)] [(3, 4), (1, 2)] : OTO Nat) = ⟨[(3, 4), (1, 2)], [(4, 3), (2, 1)]⟩ ∧
+    (OTO.ofPairsAs [(1, 2), (3, 4), (5, 2)] [(3, 4), (7, 2)] : OTO Nat) = ⟨[(5, 2), (3, 4)], [(2, 5), (4, 3)]⟩ := by decide
 /-- the hypothesis of `oto_ctor_values_kept`: value 2 sits under keys 1 and 5; key 5 keeps it -/
 example : lookup 1 (putAll ([] : Dict Nat Nat) [(1, 2), (3, 4), (5, 2)]) = some 2 ∧
     lookup 5 (OTO.ofPairs [(1, 2), (3, 4), (5, 2)] : OTO Nat).fwd = some 2 := by decide
